@@ -50,6 +50,10 @@ CHECKS = {
    text="partial: every helper (lists.len/reverse/head/tail/enumerate/zip/slice/str_join, tuples.fields/values/iter/strip_nulls/has_fields, strings.len/chars/split_on/split_at/substr/parse_int, functional.maybe, schema.shaped/any/all/base_type_of) is called through import \"std/...\" in built files on seeded random lists, tuples, ASCII and Unicode strings, separators of length 1..3 and boundary index pairs, and the result read from `out yaml` is compared with a python reference definition; involution of reverse, zip truncation, inclusive slices and split_on/str_join round trip are among the cases. Coq theorems about the ASTs of std/*.ucg (regenerated by the real parser, gen/StdLib.v) under the definitional semantics are added for the fold-shaped helpers as they are proved; the level is raised to proof then",
    note="the helpers that use import/mod.pkg (zip, slice, has_fields, the string helpers, schema.*) are outside the definitional semantics (imports answer Unsup) and stay test-only",
    technique="Coq proof for fold-shaped helpers over generated ASTs (in progress) + reference-function correspondence through the ucg binary"),
+ "C17": dict(category="proof",
+   text="partial: Coq theorems, for every source text, about the positions the tokenizer attaches to tokens - which are the positions every parse error and every opcode carries: they are the true line and column of the token's first byte; a token that starts inside a byte span is reported on a line of that span; text put in front (ending with a line feed) moves every later position by exactly the lines added and leaves the column; text put behind changes no earlier token; and the opcodes of a statement do not depend on the neighbouring statements. That the parser and the evaluator report the position of the failing token / operand of the faulty statement (and list the calling statement for a fault in a function body) is decided against the implementation: generated multi-line programs with one fault of every kind, each in several forms (literal operand, operand bound earlier, operand returned by a function defined earlier), at every statement position and nesting position, each also with 1..3 statements inserted before",
+   note="positions are dropped in the VM model (C01), so 'the error carries the failing operand's position' is observed, not proved; a syntax diagnostic may point at the first token after the faulty statement, where the parser notices the fault",
+   technique="Coq proof (token position theorems: exactness, span, prefix shift, suffix independence; translate distributes over statement lists) + fault-injection correspondence on the real evaluator"),
  "C13": dict(category="proof",
    text="Coq state machine of the assertion collector and the `ucg test` driver: the verdict of each file equals its specification (builds and all assertions ok), independent of the other files and their order, exit status non-zero iff some file fails, each assertion logged exactly once; a lemma shows the shared collector of the original code refuted this. Tied to the real binary by running generated test files in every order and comparing verdicts, logs and exit status with the extracted model and with the generator's ground truth",
    note="per-file build abstracted to the list of asserted values; asserts in imported files and directory recursion order not modelled",
